@@ -377,6 +377,10 @@ class Interp:
             allargs = list(args)
             if fn.self_ref is not None and 'staticmethod' not in decos:
                 allargs = [fn.self_ref] + allargs
+            if node.args.vararg is not None:
+                # def f(a, *rest): the arguments beyond the named parameters, as a tuple
+                env[node.args.vararg.arg] = tuple(allargs[len(params):])
+                allargs = allargs[:len(params)]
             if len(allargs) > len(params):
                 raise AnalysisError('heap model: too many arguments for %s' % node.name)
             env.update(zip(params, allargs))
@@ -724,7 +728,12 @@ class Interp:
                 else:
                     lang = _rx.from_function(a_, [], 0, lambda q, sym: 1 if (q == 1 or not (mask >> sym & 1)) else 0, lambda q: q == 0)
                 return subject._decide(lang, '%s(... for %s in ...)' % (fn.id, g_.target.id))
-        args = [self.ev(a, env, cls) for a in e.args]
+        args = []
+        for a in e.args:
+            if isinstance(a, ast.Starred):
+                args.extend(self.seq(self.ev(a.value, env, cls)))       # f(*xs): the items of xs, in order
+            else:
+                args.append(self.ev(a, env, cls))
         kwargs = {k.arg: self.ev(k.value, env, cls) for k in e.keywords}
         if isinstance(fn, ast.Name) and fn.id in ('any', 'all') and fn.id not in env and len(args) == 1:
             vals = [self.truth(v) for v in self.seq(args[0])]
